@@ -26,9 +26,19 @@ THEOREMS = [
          "between vials sums to zero over the batch (no hypothesis)", strength="full"),
     dict(name="Snow.C01.vial_trichotomy", clause="a vial transition is exactly one of: sensible cooling, nucleation "
          "jump of a supercooled liquid vial to the selected formulation, equilibrium solidification; which one is "
-         "decided by sigma = 0 and the nucleation decision (any q, kb, dice, CN flag)", strength="full"),
+         "decided by sigma = 0 and the nucleation decision (any q, kb, dice, CN flag) — ONE step; side hypothesis hs: a vial "
+         "containing ice has sigma != 1 and a non-vanishing eq.-5 bracket (true for 0 <= sigma < 1, "
+         "vial_trichotomy_admissible)", strength="conditional-on-sigma-in-[0,1)"),
     dict(name="Snow.C01.step_trichotomy", clause="every vial of every step: the new vial value is that transition, "
-         "driven by the net heat flow computed from the old state", strength="full"),
+         "driven by the net heat flow computed from the old state — ONE step of the batch, same side hypothesis hs",
+         strength="conditional-on-sigma-in-[0,1)"),
+    dict(name="Snow.C01.run_trichotomy_partial", clause="RUN level: for every column j and vial i of runWith inp kCN "
+         "(run inp) the next column is the step function of column j and the vial's transition is one of the three; hs "
+         "is discharged by C06's admissibility invariant, hence conditional on the monitored side condition of "
+         "C06.run_admissible_partial (well-formed program, Stable range)", strength="partial"),
+    dict(name="Snow.C01.run_uses_shape", clause="a run whose parameters are built by Params.withShape (what the driver "
+         "does for the configured arrangement and shape) uses, in every step and for every vial, the geometric heat "
+         "flow of q_refines_shape, and its inter-vial heat cancels (heat_cancels_shape)", strength="full"),
     dict(name="Snow.C01.indirect_is_eq9", clause="indirect formulation = eq. 9 of development.rst", strength="full"),
     dict(name="Snow.C01.direct_solves_eq12", clause="direct formulation solves eq. 12, lies in (0,1) when T < T_eq_l, "
          "and is the only root there", strength="full"),
